@@ -691,13 +691,22 @@ def nat_phi(rng):
 
 
 def _nat_phi_case(rng, s_, shift):
-    from eminus.dft import get_phi
-
     at = native_atoms(Nk=1, s=s_)
     if shift is not None:
         at.kpts.kmesh = [1, 1, 1]
         at.kpts.kshift = shift
         at.build()
+    e = _nat_phi_err(rng, at)
+    # the same object after a change of the cell (same sampling): nothing of the old cell may survive in the Poisson solve
+    at.a = np.asarray(at.a) * np.array([[1.3], [0.8], [1.1]])
+    at.s = list(s_)
+    at.build()
+    return max(e, _nat_phi_err(rng, at))
+
+
+def _nat_phi_err(rng, at):
+    from eminus.dft import get_phi
+
     n = rng.random(at.Ns)
     phi = get_phi(at, n)
     # reciprocal-space density by an explicit sum (independent of the package's transforms): n_G = 1/Ns sum_r exp(-i G.r) n(r)
